@@ -534,6 +534,8 @@ struct Env<'a> {
     tx_offset: u64,
     chain_id: u64,
     base: [u8; 32],
+    /// the transaction object carried metadata cached for other contents when it was checked
+    stale_metadata: bool,
 }
 
 #[derive(Clone, Copy, PartialEq, Eq, Debug)]
@@ -1173,6 +1175,7 @@ fn replay_record(env: &Env, ctx: Ctx, p: &Probe) -> Value {
         "height": env.height,
         "gas_price": env.gas_price.to_string(),
         "ctx": ctx.name(),
+        "stale_metadata": env.stale_metadata,
         "pred_idx": ctx.pred(),
         "gm": p.gm,
         "imm": p.imm,
@@ -1425,8 +1428,38 @@ fn tx_offset_of(params: &ConsensusParameters) -> u64 {
     32 + 32 + params.tx_params().max_inputs() as u64 * 40 + 8
 }
 
-fn run_case(tx: &Transaction, params: &ConsensusParameters, height: u32, gas_price: u64, plan: Plan, single: Option<(&Probe, Ctx)>, rng: &mut Rng, rep: &mut Report, st: &mut Stats) {
+/// Pre-compute the transaction once with one more (or one less) policy - everything behind
+/// the policies sits 8 bytes elsewhere - and put the policies back: the contents are the
+/// original ones again, the cached metadata (offsets, id) is not. Checking must refresh it.
+fn with_stale_metadata(tx: &Transaction, params: &ConsensusParameters) -> Transaction {
+    use fuel_tx::Cacheable;
+    fn toggle<T: fuel_tx::field::Policies + Cacheable>(t: &mut T, chain: &fuel_types::ChainId) {
+        let had = t.policies().get(PolicyType::Tip);
+        t.policies_mut().set(PolicyType::Tip, if had.is_some() { None } else { Some(1) });
+        let _ = t.precompute(chain);
+        t.policies_mut().set(PolicyType::Tip, had);
+    }
+    let chain = params.chain_id();
+    let mut t = tx.clone();
+    match &mut t {
+        Transaction::Script(x) => toggle(x, &chain),
+        Transaction::Create(x) => toggle(x, &chain),
+        Transaction::Upgrade(x) => toggle(x, &chain),
+        Transaction::Upload(x) => toggle(x, &chain),
+        Transaction::Blob(x) => toggle(x, &chain),
+        Transaction::Mint(_) => {}
+    }
+    t
+}
+
+fn run_case(tx: &Transaction, params: &ConsensusParameters, height: u32, gas_price: u64, plan: Plan, single: Option<(&Probe, Ctx)>, stale: Option<bool>, rng: &mut Rng, rep: &mut Report, st: &mut Stats) {
+    let stale_metadata = stale.unwrap_or_else(|| rng.below(4) == 0);
+    if stale_metadata {
+        rep.count("transactions_checked_with_stale_cached_metadata");
+    }
+    let staged = if stale_metadata { with_stale_metadata(tx, params) } else { tx.clone() };
     let env = Env {
+        stale_metadata,
         tx,
         params,
         height,
@@ -1435,7 +1468,7 @@ fn run_case(tx: &Transaction, params: &ConsensusParameters, height: u32, gas_pri
         chain_id: u64::from(params.chain_id()),
         base: **params.base_asset_id(),
     };
-    let checked = match guarded(|| tx.clone().into_checked_basic(BlockHeight::from(height), params)) {
+    let checked = match guarded(|| staged.clone().into_checked_basic(BlockHeight::from(height), params)) {
         Ok(Ok(c)) => c,
         Ok(Err(e)) => {
             rep.count("generator_rejected");
@@ -1546,7 +1579,7 @@ fn worker(cfg: &Cfg, w: usize) -> Report {
         let (tx, params, height, gas_price) = timed(&mut rep, "t_us_make", |_| make_case(&mut rng, g));
         let plan = if g % 4 == 0 { Plan::Full } else { Plan::Sample };
         rep.count("transactions");
-        timed(&mut rep, "t_us_case", |rep| run_case(&tx, &params, height, gas_price, plan, None, &mut rng, rep, &mut st));
+        timed(&mut rep, "t_us_case", |rep| run_case(&tx, &params, height, gas_price, plan, None, None, &mut rng, rep, &mut st));
     }
     if w == 0 {
         timed(&mut rep, "t_us_e2e", |rep| gm_call_e2e(rep, &mut st));
@@ -1730,7 +1763,7 @@ fn run_replay(rec: &Value) -> Report {
         return rep;
     };
     let mut rng = Rng::derive(0, 0xC05, 0);
-    run_case(&tx, &params, height, gas_price, Plan::Sample, Some((&p, ctx)), &mut rng, &mut rep, &mut st);
+    run_case(&tx, &params, height, gas_price, Plan::Sample, Some((&p, ctx)), Some(rec.get("stale_metadata").and_then(|v| v.as_bool()).unwrap_or(false)), &mut rng, &mut rep, &mut st);
     rep.evaluations += st.evals;
     rep
 }
